@@ -3,3 +3,4 @@ from . import eff  # noqa: F401
 from . import exc  # noqa: F401
 from . import ctxm  # noqa: F401
 from . import val  # noqa: F401
+from . import iterfog  # noqa: F401
